@@ -76,43 +76,6 @@ mod verif_kani {
         buffer_case(5);
     }
 
-    // ---- populate_inputs: one named input vector against its declared (offset, length) ------------------------------
-    // std HashMap with a hasher state built from fixed keys (RandomState::new() needs getrandom); ONE entry with the concrete
-    // name "a" (a symbolic key would make the SipHash bucket symbolic).  Symbolic: the declared offset and length, the two
-    // values, the buffer contents.  Error texts are built with format!: stubbed, the text is never inspected.
-    fn fixed_state() -> std::collections::hash_map::RandomState {
-        unsafe { std::mem::transmute::<(u64, u64), std::collections::hash_map::RandomState>((0x0123_4567_89ab_cdef, 0x0fed_cba9_8765_4321)) }
-    }
-    fn no_text(_args: std::fmt::Arguments<'_>) -> String { String::new() }
-    fn small(x: u64) -> U256 { U256::from_limbs([x, 0, 0, 0]) }
-
-    #[kani::proof]
-    #[kani::unwind(6)]
-    #[kani::stub(std::fmt::format, no_text)]
-    fn populate_one_input() {
-        let v0: u64 = kani::any();
-        let v1: u64 = kani::any();
-        let mut inputs: HashMap<String, Vec<U256>> = HashMap::with_hasher(fixed_state());
-        inputs.insert("a".to_string(), vec![small(v0), small(v1)]);
-        let offset: usize = kani::any();
-        let len: usize = kani::any();
-        let known: bool = kani::any();
-        let mut info: InputSignalsInfo = HashMap::with_hasher(fixed_state());
-        info.insert(if known { "a".to_string() } else { "b".to_string() }, (offset, len));
-        let init: [u64; 4] = kani::any();
-        let mut buf = [small(init[0]), small(init[1]), small(init[2]), small(init[3])];
-        let r = populate_inputs(&inputs, &info, &mut buf);
-        let fits = known && len == 2 && offset <= 2;
-        if !fits {
-            assert!(r.is_err(), "populate_inputs/unknown-or-ill-sized-input-is-an-error");
-        } else {
-            assert!(r.is_ok(), "populate_inputs/well-formed-input-is-accepted");
-            let mut k = 0;
-            while k < 4 {
-                let want = if k == offset { v0 } else if k == offset + 1 { v1 } else { init[k] };
-                assert!(limbs_are(&buf[k], want), "populate_inputs/values-land-at-their-declared-offset-and-nowhere-else");
-                k += 1;
-            }
-        }
-    }
+    // populate_inputs (HashMap<String, Vec<U256>>) was tried with a fixed-state std HashMap, one concrete name, symbolic offset /
+    // length / values: CBMC did not finish in 25 min (String keys through SipHash + hashbrown probing).  It stays Verus-only.
 }
